@@ -33,7 +33,7 @@ def run(ctx):
     ctx.extra['histories'] = len(hl)
     with open(os.path.join(ctx.scratch, 'c49_plan.json'), 'w') as f:
         json.dump({'histories': [list(h) for h in hl]}, f)
-    res = ctx.gotest('e2e', 'TestVerif_C49', tags='verif e2e_testing', also=('net',), timeout=1500)
+    res = ctx.gotest('e2e', 'TestVerif_C49', tags='verif e2e_testing', also=('net',), timeout=600 if ctx.quick else 1500)
     ctx.take_mismatches(res)
     ctx.require_actions('Stop', 'Start', 'reload', 'lighthouse', 'hs2')
 
